@@ -228,6 +228,11 @@ public:
         Vector Vf(to_m);
         Vector w(m_n);
 
+        // While the factorization is being extended, V, H and f do not belong to one dimension:
+        // if the operator throws, the object must not keep advertising a dimension that its
+        // residual no longer matches (a later call would silently build on it)
+        m_k = 0;
+
         // Keep the upperleft k x k submatrix of H and set other elements to 0
         m_fac_H.rightCols(m_m - from_k).setZero();
         m_fac_H.block(from_k, 0, m_m - from_k, from_k).setZero();
